@@ -27,9 +27,9 @@ func init() { Harnesses["codec"] = runCodec }
 // (the registry allows names of up to 8 bytes; the shipped names are shorter).
 type key8 struct{ k gcrypto.Ed25519PubKey }
 
-func (k key8) PubKeyBytes() []byte       { return k.k.PubKeyBytes() }
+func (k key8) PubKeyBytes() []byte         { return k.k.PubKeyBytes() }
 func (k key8) Verify(msg, sig []byte) bool { return k.k.Verify(msg, sig) }
-func (k key8) TypeName() string          { return "vsimkey8" }
+func (k key8) TypeName() string            { return "vsimkey8" }
 func (k key8) Equal(o gcrypto.PubKey) bool {
 	ok, is := o.(key8)
 	return is && k.k.Equal(ok.k)
